@@ -123,7 +123,9 @@ func c14(rc *corepkg) {
 	k := 0
 	if !concurrent {
 		k = rc.Run % c14Group
-		w.E.W.Etcd.FailKeyFilter = func(key string) bool { return strings.Contains(key, "/raft/s/") }
+		w.E.W.Etcd.FailKeyFilter = func(key string) bool {
+			return strings.Contains(key, "/raft/s/") || strings.Contains(key, "/store_weight/")
+		}
 		w.E.W.Etcd.FailNthWrite(k, "before")
 		rc.Knobs["fail_store_write_no"] = k
 	}
@@ -144,6 +146,7 @@ func c14(rc *corepkg) {
 		return err
 	}
 	running := 1
+	restarts := 0
 	if concurrent {
 		s.SetSchedKnobs(rc.KnobF("p_switch2", 0.3, 1), rc.KnobF("p_lock2", 0.1, 0.4), 0, 0)
 		// a heartbeat stream keeps moving peers around (also onto offline stores: foreign conf changes / stale reports)
@@ -186,7 +189,11 @@ func c14(rc *corepkg) {
 			var hdrErr *pdpb.Error
 			name := ""
 			lifecycle := true
-			switch s.Choose(11, "st.op") {
+			opKind := s.Choose(12, "st.op")
+			if opKind == 11 && (concurrent || restarts >= 2) {
+				opKind = 8
+			}
+			switch opKind {
 			case 0: // a new store, sometimes on an address already in use
 				meta := &metapb.Store{Id: nextStore, Address: fmt.Sprintf("tikv%d:20160", nextStore), Version: "5.0.0"}
 				if s.Choose(3, "st.dupaddr") == 0 {
@@ -203,7 +210,8 @@ func c14(rc *corepkg) {
 					w.M.AddStore(meta.Id, nil)
 				}
 			case 1: // re-registration of an existing id (same or new address, new labels)
-				meta := proto.Clone(pick.GetMeta()).(*metapb.Store)
+				// what a restarting TiKV sends: its identity, address, labels and version - never a state or a destroyed flag
+				meta := &metapb.Store{Id: id, Address: pick.GetAddress(), Version: pick.GetVersion(), StatusAddress: pick.GetMeta().GetStatusAddress()}
 				if s.Choose(3, "st.newaddr") == 0 {
 					meta.Address = fmt.Sprintf("tikv%d-b:20160", id)
 				}
@@ -252,6 +260,33 @@ func c14(rc *corepkg) {
 					rc.Violate("c14.tombstone", "tombstone-heartbeat-accepted", "store %d is tombstone but its heartbeat was accepted", id)
 					return
 				}
+			case 11: // PD restarts: everything is loaded back from storage, then the store check runs before any heartbeat
+				lifecycle = false
+				restarts++
+				name = "restart PD + checkStores"
+				w.onPD("flush", func() { st.Flush() })
+				w.restarting = true
+				w.L.Crash()
+				simrt.Sleep(300 * time.Millisecond)
+				if serr := w.L.Start(); serr != nil {
+					rc.Anomaly("restart: %v", serr)
+					return
+				}
+				l := w.E.WaitLeader(20 * time.Second)
+				for i := 0; l != nil && l.Srv.GetRaftCluster() == nil && i < 100; i++ {
+					simrt.Sleep(100 * time.Millisecond)
+				}
+				if l == nil || l.Srv.GetRaftCluster() == nil {
+					rc.Anomaly("liveness: no serving cluster after a restart")
+					return
+				}
+				w.L, w.Srv, w.Cl = l, l.Srv, l.Srv.GetRaftCluster()
+				w.restarting = false
+				bc, st = w.Srv.GetBasicCluster(), w.Srv.GetStorage()
+				cli = w.E.W.Net.Dial(w.L.ClientURL)
+				rc.Extra["pd_restarts"]++
+				err = admin("check-stores", func() error { w.Cl.SimCheckStores(); return nil })
+				before, beforeStores = storeDigest(bc), storeDigests(bc)
 			case 10: // the TiKV side drains an offline store / moves peers (so that it can be buried), and reports it
 				lifecycle = false
 				name = fmt.Sprintf("drain store %d", id)
